@@ -204,15 +204,16 @@ func checkUpdateOrders(vs *types.ValidatorSet, st state, cs []entry, extra [][]e
 		switch {
 		case rej != rejNone && err == nil:
 			fs = append(fs, finding{"C12|oracle=invalid-accepted|class=" + rej, desc() + " is accepted (result " + got.String() + ") although the change set is invalid: " + rej, nil})
-		case err != nil && rej == rejNone && !info.grey:
+		case err != nil && rej == rejNone && info.grey:
+			// the resulting total is within the cap; only the total before the removals is above it
+			fs = append(fs, finding{"C12|oracle=valid-rejected|class=cap-checked-before-removals", desc() + " is rejected (" + err.Error() +
+				") although the total of the resulting set does not exceed the cap (removals are applied before the cap check)", nil})
+		case err != nil && rej == rejNone:
 			fs = append(fs, finding{"C12|oracle=valid-rejected|shape=" + shape(), desc() + " is rejected (" + err.Error() + ") although the change set is valid", nil})
 		case err != nil:
-			// rejected (correctly, or in the grey zone): the set must be deep-equal to what it was
+			// correctly rejected: the set must be deep-equal to what it was
 			if !reflect.DeepEqual(c, vs) {
 				cls := rej
-				if cls == rejNone {
-					cls = "grey"
-				}
 				fs = append(fs, finding{"C12|oracle=all-or-nothing|class=" + cls, desc() + " returns an error (" + err.Error() + ") but leaves the set changed: " + got.String(), nil})
 			}
 		default:
